@@ -215,6 +215,10 @@ func (w *world) checkVerify() string {
 func (w *world) checkRepair(dc bool) (string, bool) {
 	prev := w.files()
 	decided, within := w.withinCapacity()
+	var mayBefore []bool
+	if w.c.Format == "par2" {
+		mayBefore = model.Locate(w.S, w.prot, prev).May
+	}
 	_, err, pan := w.repair(dc)
 	if pan != "" {
 		return "Repair panicked: " + pan, false
@@ -234,6 +238,15 @@ func (w *world) checkRepair(dc bool) (string, bool) {
 		}
 		if decided && within {
 			return fmt.Sprintf("Repair failed (%v) although the damage is within the recovery capacity", err), false
+		}
+		if mayBefore != nil {
+			// ... so that repeated attempts converge: no slice content that was still present may be gone afterwards
+			mayAfter := model.Locate(w.S, w.prot, cur).May
+			for i := range mayBefore {
+				if mayBefore[i] && !mayAfter[i] {
+					return fmt.Sprintf("failed Repair destroyed the last copy of protected slice %d (present before, absent after): the damage increased", i), false
+				}
+			}
 		}
 		return "", false
 	}
